@@ -108,6 +108,15 @@ func (rc *replayCtx) build(t types.Type, leaves []*Term, depth int) *inNode {
 			sub = append(sub, Select(h, n.id))
 		}
 		n.pointee = rc.build(u.Elem(), sub, depth+1)
+	case *types.Interface:
+		n.kind = "opaque"
+		if depth <= 1 && len(leaves) > 0 {
+			// an interface held directly by an input (a reader, a writer): the replay cannot build the
+			// value the model asks for unless it is nil
+			n.kind = "iface"
+			n.id = leaves[0]
+			rc.want(n.id)
+		}
 	default:
 		n.kind = "opaque"
 	}
@@ -253,6 +262,8 @@ func (rc *replayCtx) fill(n *inNode) {
 		for _, f := range n.fields {
 			rc.fill(f)
 		}
+	case "iface":
+		n.vid = get(n.id)
 	case "ptr":
 		n.vid = get(n.id)
 		if n.pointee != nil {
@@ -274,6 +285,11 @@ func signed64(v *big.Int) *big.Int {
 func (g *goGen) literal(n *inNode) (string, bool) {
 	ts := g.typeStr(n.T)
 	switch n.kind {
+	case "iface":
+		if n.vid == nil || n.vid.Sign() == 0 {
+			return fmt.Sprintf("*new(%s)", ts), true
+		}
+		return "", false
 	case "int":
 		return fmt.Sprintf("%s(%s)", ts, n.val.String()), true
 	case "bool":
